@@ -428,3 +428,60 @@ func init() {
 	}
 	_ = os.Getenv
 }
+
+// FuzzImporter (thorough tier): coverage-guided search over byte strings decoded into ExportNode streams.
+func FuzzImporter(f *testing.F) {
+	f.Add([]byte{0, 1, 1, 0, 1, 'a', 1, 'x', 1, 0, 1, 'b', 1, 'y', 1, 1, 0, 0, 1})
+	f.Add([]byte{1, 2, 1, 0, 2, 0, 'a', 1, 'x', 1, 0, 2, 1, 'b', 1, 'y', 0, 1, 0, 0, 1})
+	f.Add([]byte{0, 1, 0, 0xff, 1, 'a', 0, 0x80})
+	f.Fuzz(func(t *testing.T, data []byte) {
+		if len(data) < 3 || len(data) > 400 {
+			return
+		}
+		c := HostileCase{Prop: "C10", Kind: "hostile_import", Compressed: data[0]&1 == 1, SkipFast: data[0]&2 == 2, Commit: data[0]&4 == 0,
+			ImportVer: int64(data[1] % 6), Mutations: []string{"fuzz"}}
+		p := data[2:]
+		next := func() byte {
+			if len(p) == 0 {
+				return 0
+			}
+			b := p[0]
+			p = p[1:]
+			return b
+		}
+		take := func(n int) []byte {
+			if n > len(p) {
+				n = len(p)
+			}
+			b := append([]byte{}, p[:n]...)
+			p = p[n:]
+			return b
+		}
+		for len(p) > 0 && len(c.Nodes) < 24 {
+			h := HNode{Height: int8(next()), Version: int64(int8(next()))}
+			switch kl := next(); {
+			case kl == 0xff:
+				h.KeyNil = true
+			case kl == 0xfe:
+				h.Nil = true
+			default:
+				h.Key = take(int(kl % 6))
+			}
+			switch vl := next(); {
+			case vl == 0xff:
+				h.ValueNil = true
+			default:
+				h.Value = take(int(vl % 4))
+			}
+			c.Nodes = append(c.Nodes, h)
+		}
+		v, _, _, hung := runHostile(c)
+		if hung {
+			t.Skip("watchdog")
+		}
+		if v != nil {
+			path := writeReplay("C10", c, v)
+			t.Fatalf("VERIF-VIOLATION property=C10 replay=%s observer=%s :: %s", path, v.Obs, v.Msg)
+		}
+	})
+}
